@@ -243,12 +243,23 @@ def go_modfile():
 def go_test_build(pkg, out, race=False, tags="verif", timeout=1200):
     """Build harness/<pkg> as a test binary against $VERIF_REPO's working tree."""
     os.makedirs(os.path.dirname(out), exist_ok=True)
-    cmd = [GO, "test", "-c", "-vet=off", "-tags", tags, "-modfile", go_modfile(), "-o", out]
+    # VERIF_COVERDIR=<dir> (coverage survey, bin/coverage): build with coverage of the repository's packages and put a
+    # wrapper at `out` that passes -test.gocoverdir to the real binary; never set by a registered command.
+    cov = os.environ.get("VERIF_COVERDIR")
+    real = out + ".real" if cov else out
+    cmd = [GO, "test", "-c", "-vet=off", "-tags", tags, "-modfile", go_modfile(), "-o", real]
     if race:
         cmd.append("-race")
+    if cov:
+        cmd += ["-cover", "-covermode=atomic", "-coverpkg=github.com/named-data/ndnd/..."]
     cmd.append("./" + pkg)
     with flock("go-" + pkg + ("-race" if race else "")):
         rc, o = sh(cmd, cwd=os.path.join(VERIF, "harness"), env=goenv(), timeout=timeout)
+    if cov and rc == 0:
+        os.makedirs(cov, exist_ok=True)
+        with open(out, "w") as f:
+            f.write('#!/bin/sh\nexec "%s" -test.gocoverdir="%s" "$@"\n' % (real, cov))
+        os.chmod(out, 0o755)
     return rc == 0, o
 
 
